@@ -31,6 +31,13 @@ func (c *BlockAddress) String() string {
 
 // Type returns the type of the constant.
 func (c *BlockAddress) Type() types.Type {
+	// The address of a basic block is a pointer in the address space of its
+	// function.
+	if t, ok := c.Func.Type().(*types.PointerType); ok && t.AddrSpace != 0 {
+		typ := types.NewPointer(types.I8)
+		typ.AddrSpace = t.AddrSpace
+		return typ
+	}
 	return types.I8Ptr
 }
 
